@@ -80,6 +80,8 @@ pub struct Hop {
     pub ext: Option<(Vec<ExtObj>, ExtLayout)>,
     /// The device rewrites source address/port of datagrams on arrival (NAT).
     pub nat: bool,
+    /// ... and, instead of fixing the UDP checksum up, clears it (legal over IPv4: "no checksum").
+    pub nat_zero: bool,
     /// TTL / hop limit value in the quoted header.
     pub quoted_ttl: u8,
     /// Rewrite the quoted TOS / traffic class to this value.
@@ -126,6 +128,7 @@ impl Hop {
             quote: Quote::HeaderPlus(8),
             ext: None,
             nat: false,
+            nat_zero: false,
             quoted_ttl: 1,
             rewrite_tos: None,
             zero_quoted_cksum: false,
@@ -627,10 +630,13 @@ impl World {
             // them would make the quotation unrecognisable to the tracer)
             let a_off = if self.cfg.v6 { 22 } else { 14 };
             let mut cur_a = u16::from_be_bytes([q[a_off], q[a_off + 1]]);
+            let mut cleared = false;
             for (i, h) in self.cfg.topo.hops.iter().enumerate() {
                 if i <= upto_hop && h.nat {
                     let new_a = 0xc0a8u16.wrapping_add(i as u16 * 3);
-                    ck = adj(ck, cur_a, new_a);
+                    cleared |= h.nat_zero && !self.cfg.v6;
+                    // a cleared checksum stays cleared: there is nothing to update incrementally
+                    ck = if cleared { 0 } else { adj(ck, cur_a, new_a) };
                     cur_a = new_a;
                 }
             }
